@@ -363,7 +363,8 @@ class ElementOperation(Module):
             assert em.shape[-1] == self.domain.elemnodes, f"Size of element matrix must match #dofs_per_element ({ndof*self.domain.elemnodes}) or #nodes_per_element ({self.domain.elemnodes})."
 
             # Element matrix is repeated for each dof
-            self.element_matrix = np.zeros((ndof, *self.element_matrix.shape[:-1], ndof * self.domain.elemnodes))
+            self.element_matrix = np.zeros((ndof, *self.element_matrix.shape[:-1], ndof * self.domain.elemnodes),
+                                           dtype=em.dtype)
             for i in range(ndof):
                 self.element_matrix[i, ..., i::ndof] = em
 
@@ -504,7 +505,7 @@ class NodalOperation(Module):
 
     def _response(self, x):
         dofs_el = einsum('...k, ...l -> lk', self.element_matrix, x, optimize=True)
-        dofs = np.zeros(self.ndofs)
+        dofs = np.zeros(self.ndofs, dtype=dofs_el.dtype)
         np.add.at(dofs, self.dofconn, dofs_el)
         return dofs
 
